@@ -50,6 +50,8 @@ class Fn:
         self.module, self.qual, self.node, self.cls = module, qual, node, cls
         self.reads, self.calls_bare, self.calls_meth, self.calls_mod = set(), set(), set(), set()
         self.calls_self = set()
+        self.deep_iters = []        # (line, callee, argument text, shared?)  library code that walks every nested container
+        self.keyset_reads = set()   # slots whose KEY SET the function iterates (.items() / .keys() / .values() / dict() / list())
         self.value_meths = set()
         self.is_property = any((SS.dotted(d) or "").split(".")[-1] in ("property", "cached_property") for d in node.decorator_list)
 
@@ -136,8 +138,47 @@ def scan(repo):
                 for b in st.body:
                     if isinstance(b, (ast.FunctionDef, ast.AsyncFunctionDef)):
                         reg(b, st.name, "")
+    # (pickle.dumps is not listed: it delegates to __reduce_ex__ of the objects - ThriftObject serialises at C level under the GIL;
+    #  whether a pickled object is a plain dict is not visible in the ast.  The iter_race schedules cover pickling dynamically.)
+    DEEP = {"copy.deepcopy", "deepcopy", "json.dumps", "json.dump"}
+
+    def arg_shared(fn, arg):
+        """False when the ast gives away that the walked object was built in this function (a literal, dict(...) / list(...) of something)"""
+        n = arg
+        while isinstance(n, (ast.Attribute, ast.Subscript)):
+            n = n.value
+        if isinstance(n, (ast.Dict, ast.List, ast.Tuple, ast.Set, ast.Constant, ast.ListComp, ast.DictComp)):
+            return False
+        if isinstance(n, ast.Name) and n is arg:
+            vals = [x.value for x in ast.walk(fn.node) if isinstance(x, ast.Assign) and any(isinstance(t, ast.Name) and t.id == n.id for t in x.targets)]
+            if vals and all(isinstance(v, (ast.Dict, ast.List, ast.DictComp, ast.ListComp)) or
+                            (isinstance(v, ast.Call) and (SS.dotted(v.func) or "") in ("dict", "list", "OrderedDict", "copy.deepcopy", "deepcopy")) for v in vals):
+                return False
+        return True
+
+    def slot_name(node):
+        n = node
+        if isinstance(n, ast.Call):
+            n = n.func
+        if isinstance(n, ast.Attribute):
+            return n.attr
+        if isinstance(n, ast.Subscript) and isinstance(n.slice, ast.Constant) and isinstance(n.slice.value, str):
+            return n.slice.value
+        if isinstance(n, ast.Name):
+            return n.id
+        return "?"
     # per function: reads and calls
     for (m, qual), fn in fns.items():
+        for n in ast.walk(fn.node):
+            if isinstance(n, ast.Call):
+                cn = SS.dotted(n.func) or ""
+                if cn in DEEP and n.args:
+                    fn.deep_iters.append([n.lineno, cn, SS.unparse(n.args[0])[:60], arg_shared(fn, n.args[0])])
+                if isinstance(n.func, ast.Attribute) and n.func.attr in ("items", "keys", "values") and receiver_kind(n.func.value, fn, m) != "external":
+                    fn.keyset_reads.add(slot_name(n.func.value))
+                if isinstance(n.func, ast.Name) and n.func.id in ("dict", "list", "sorted", "tuple", "set", "frozenset") and len(n.args) == 1 \
+                        and isinstance(n.args[0], (ast.Name, ast.Attribute, ast.Subscript)) and receiver_kind(n.args[0], fn, m) != "external":
+                    fn.keyset_reads.add(slot_name(n.args[0]))
         callee_nodes = set()
         for n in ast.walk(fn.node):
             if isinstance(n, ast.Call):
@@ -294,10 +335,14 @@ def build(repo, inv=None):
             seen.add(k)
             stack.extend(callees(k) - seen)
         reads, ws = set(), []
+        deep, keysets = [], set()
         for k in seen:
             reads |= fns[k].reads
             ws += writes.get(k, [])
+            deep += [["%s.py" % k[0], k[1]] + d_ for d_ in fns[k].deep_iters]
+            keysets |= fns[k].keyset_reads
         rows.append({"op": op, "functions": len(seen), "reads": sorted(reads), "writes": ws, "missing_entries": missing,
+                     "deep_iterations": deep, "keyset_reads": sorted(keysets),
                      "reach": sorted("%s:%s" % k for k in seen)})
     slots = sorted(set(s for r in rows for s in r["reads"]) | set(w["slot"] for r in rows for w in r["writes"]))
     ranges = {}
@@ -317,6 +362,28 @@ def offenders(tab):
                     if w["slot"] in a["reads"]:
                         bad.append({"reader": a["op"], "writer": b["op"], "slot": w["slot"], "site": "%s:%d" % (w["file"], w["line"]), "pattern": w["pattern"]})
     return bad
+
+
+def iteration_conflicts(tab):
+    """An operation that hands an object it did not build itself to library code walking every nested container (copy.deepcopy,
+    pickle / json in Python) iterates the KEY SETS of everything reachable from it; an operation with a check-then-act store
+    publishes a NEW key into a shared container.  The publication is confluent for readers of the key, not for iterators of the
+    container (C20_iter_vs_new_key_refuted) -> [(iterating op, site, publishing op, slot)]"""
+    pubs = {}
+    for r in tab["rows"]:
+        for w in r["writes"]:
+            if w["pattern"] == "check_then_act":
+                pubs.setdefault(r["op"], set()).add(w["slot"])
+    out = []
+    for r in tab["rows"]:
+        for file_, func_, line_, callee_, arg_, shared_ in r.get("deep_iterations", []):
+            if not shared_:
+                continue
+            for op2, slots in sorted(pubs.items()):
+                out.append({"iterating_op": r["op"], "site": "%s:%d" % (file_, line_), "call": "%s(%s)" % (callee_, arg_), "func": func_,
+                            "publishing_op": op2, "new_keys": sorted(slots)[:6]})
+                break
+    return out
 
 
 def to_gallina(tab):
@@ -356,7 +423,7 @@ def run(repo, gen_dir, inv=None):
         path = os.path.join(gen_dir, "OpReads.v")
         with open(path, "w") as f:
             f.write(to_gallina(tab))
-        return {"status": "ok", "table": tab, "file": path, "offenders": offenders(tab)}
+        return {"status": "ok", "table": tab, "file": path, "offenders": offenders(tab), "iteration_conflicts": iteration_conflicts(tab)}
     except Exception as e:          # noqa (fail closed)
         import traceback
         return {"status": "translator_fallback", "reason": "%s: %s" % (type(e).__name__, e), "tb": traceback.format_exc()[-1500:]}
